@@ -23,7 +23,7 @@ ID = "C11"
 PROPS = ["IsoVerif/Props/C11.lean", "IsoVerif/Props/C11Lists.lean", "IsoVerif/Props/C11Mirror.lean",
          "IsoVerif/Props/C11Profiles.lean", "IsoVerif/Props/C11Polya.lean", "IsoVerif/Props/C11Canonical.lean",
          # equivariance of the merged models (props/c11ext.py + props/c11x_*.py)
-         "IsoVerif/Props/C11Cigar.lean", "IsoVerif/Props/C11PolyA16.lean", "IsoVerif/Props/C11Finder.lean",
+         "IsoVerif/Props/C11Cigar.lean", "IsoVerif/Props/C11PolyA16.lean", "IsoVerif/Props/C11Finder.lean", "IsoVerif/Props/C11FinderMirror.lean",
          "IsoVerif/Props/C11Regions.lean", "IsoVerif/Props/C11Counts.lean", "IsoVerif/Props/C11Ids.lean",
          "IsoVerif/Props/C11Sites.lean", "IsoVerif/Props/C11Assign.lean",
          "IsoVerif/Props/C11Resolver.lean", "IsoVerif/Props/C11Graph.lean",
@@ -32,7 +32,7 @@ PROPS = ["IsoVerif/Props/C11.lean", "IsoVerif/Props/C11Lists.lean", "IsoVerif/Pr
          "IsoVerif/Props/C11AssignMirror.lean", "IsoVerif/Props/C11Strand.lean"]
 TARGETS = ["IsoVerif.Props.C11", "IsoVerif.Props.C11Lists", "IsoVerif.Props.C11Mirror", "IsoVerif.Props.C11Profiles",
            "IsoVerif.Props.C11Polya", "IsoVerif.Props.C11Canonical",
-           "IsoVerif.Props.C11Cigar", "IsoVerif.Props.C11PolyA16", "IsoVerif.Props.C11Finder",
+           "IsoVerif.Props.C11Cigar", "IsoVerif.Props.C11PolyA16", "IsoVerif.Props.C11Finder", "IsoVerif.Props.C11FinderMirror",
            "IsoVerif.Props.C11Regions", "IsoVerif.Props.C11Counts", "IsoVerif.Props.C11Ids", "IsoVerif.Props.C11Sites",
            "IsoVerif.Props.C11Assign", "IsoVerif.Props.C11Resolver", "IsoVerif.Props.C11Graph",
            "IsoVerif.Props.C11MirrorLists", "IsoVerif.Props.C11MirrorReadProfiles",
@@ -838,7 +838,14 @@ def polya_finder_case(kw):
             else:
                 return ("finder_clean_tail", "%s=%s, mirrored %s=%s on a clean 20+ bp tail" % (tail.__name__, pa, head.__name__, pt))
         elif (pa == -1) != (pt == -1):
-            res.append(("finder_window", "%s=%s but mirrored %s=%s" % (tail.__name__, pa, head.__name__, pt)))
+            # c16x: after `fix: the polyT head window is the mirror image of the polyA tail window` both functions scan the
+            # same bases (Props/C11FinderMirror.lean finder_scan_mirror_dual / finder_not_found_mirror_dual): found vs
+            # not found is no longer part of the listed finding (its kind `finder_window` is not emitted any more)
+            return ("finder_scan_asymmetry", "%s=%s but mirrored %s=%s" % (tail.__name__, pa, head.__name__, pt))
+        elif pa >= a.reference_end and pt != max(1, L - 1 - pa):
+            # tail starts in the soft clip: the position law of finder_mirror_minus_two (mirror image - 2) is exact
+            return ("finder_position_law", "%s=%s (in the soft clip), mirrored %s=%s, expected mirror image - 2 = %s" % (
+                tail.__name__, pa, head.__name__, pt, max(1, L - 1 - pa)))
         else:
             res.append(("finder_position", "%s=%s, mirrored %s=%s, exact mirror image is %s" % (tail.__name__, pa, head.__name__, pt, L + 1 - pa)))
     return res[0] if res else None
